@@ -688,3 +688,33 @@ package value
 //@   assert-after[window-in-list-order C07] "NewList(" callres0.size == len(i) && len(callres0.items) == len(i) \
 //@       && (forall k in 0..len(i)-i0 :: callres0.items[k] == old(i[i0+k])) && (forall k in 0..i0 :: callres0.items[len(i)-i0+k] == old(i[k]))
 //@   assert-after[window-is-its-own-storage C09] "NewList(" fresh(callres0.items) && ref(callres0.items) != ref(i)
+
+// ---------------------------------------------------------------- C05: stop protocol of the list producers
+// A list's producer (iterator.Producer of the dependency) is a function value that calls its consumer for the items in
+// order and stops when the consumer returns false - the range-over-func protocol, ASSUMED for every producer that is
+// called (ghost enumeration pcount / pitem / perr). The producer literals of this package are verified to keep it
+// themselves: `yields yield` on the literal, the range-over-func loop over the upstream producer as a callback loop.
+//@ ghost func pcount(p any) int
+//@ ghost func pitem(p any, i int) Value
+//@ ghost func perr(p any, i int) error
+//@ type-contract github.com/hneemann/iterator::Producer
+//@   option params=yield
+//@   iterates yield count pcount(self) args pitem(self, cbidx), perr(self, cbidx)
+//@ closure List.Compact anchor "lastPublished = v"
+//@   property C05
+//@   yields yield
+//@   callback "range l.iterable(st)" invariant !yieldstopped() && !yieldbad()
+//@ closure createSliceIterable anchor "yield(item, nil)"
+//@   property C05
+//@   yields yield
+//@   loop 1 invariant !yieldstopped() && !yieldbad()
+//@ closure List.Number anchor "n++"
+//@   property C05
+//@   yields yield
+// (only the stop protocol: the call of the program's function inside the loop is not under contract here - its
+// preconditions about the stack do not survive the unknown effect of the consumer)
+//@   callback "range l.iterable(st)" invariant !yieldstopped() && !yieldbad()
+//@ closure Map.List anchor "String(key)"
+//@   property C05
+//@   yields yield
+//@   callback "range v.m.Iter" invariant !yieldstopped() && !yieldbad()
